@@ -1,4 +1,5 @@
 import re
+import decimal
 
 
 class _RouteFilterExhaust:
@@ -26,12 +27,20 @@ def _rex(conf):
     return conf, f_in, None
 
 
+def _float_out(x):
+    ret = str(float(x))
+    if 'e' in ret:
+        # the float mask has no exponent form: write the same value out in full
+        ret = format(decimal.Decimal(ret), 'f')
+    return ret
+
+
 class FilterFactory:
     filters = {
         're':    lambda conf: (conf, None, None),
         'rex':   _rex,
         'int':   lambda conf: (r'-?\d+', int, lambda x: str(int(x))),
-        'float': lambda conf: (r'-?\d+(\.\d+)?', float, lambda x: str(float(x))),
+        'float': lambda conf: (r'-?\d+(\.\d+)?', float, _float_out),
         'path':  lambda conf: (f'.+(?={re.escape(conf)})' if conf else '.+$', None, None)
     }
     _filter_cache = {}
